@@ -59,3 +59,41 @@ contract(
     raises={"Exception": "True"},
     assigns=["*"],
 )
+
+# ---------------------------------------------------------------------------------------------------------------------------
+# the reference event of `match SomeAction(param=..).XxxUpdated(..)`: it must carry the action's start arguments (they are what restricts
+# the match to THIS action's updates) and must not touch the caller's argument dict
+# ---------------------------------------------------------------------------------------------------------------------------
+FLOWS = "nemoguardrails/colang/v2_x/runtime/flows.py"
+classes({"Action": []})
+dataclass_of("Event", FLOWS)
+dataclass_of("ActionEvent", FLOWS)
+contract(
+    FLOWS, "Action.updated_event", prop="C04",
+    requires=["is_obj(self)", "has(self, 'name')", "is_str(self.name)", "has(self, 'uid')", "has(self, 'start_event_arguments')",
+              "is_dict(args)", "has(args, 'event_parameter_name')", "is_str(val(args, 'event_parameter_name'))"],
+    ensures=["is_inst(result, 'ActionEvent')", "result.action_uid is self.uid", "is_dict(result.arguments)", "fresh(result.arguments)",
+             "result.name == concat(concat(self.name, val(args, 'event_parameter_name')), 'Updated')",
+             # the action's start arguments travel with the reference event
+             "implies(truthy(self.start_event_arguments), has(result.arguments, 'action_arguments') and "
+             "        val(result.arguments, 'action_arguments') is self.start_event_arguments)",
+             # every other argument of the statement is carried over, the parameter name is not
+             "all(implies(k is not 'event_parameter_name' and k is not 'action_arguments', has(result.arguments, k) and "
+             "            val(result.arguments, k) is val(args, k)) for k in keys(args))",
+             "not has(result.arguments, 'event_parameter_name')",
+             "unchanged(args)"],
+    raises={}, assigns=[], allocates=True,
+)
+
+for _m, _suffix in (("started_event", "Started"), ("finished_event", "Finished")):
+    contract(
+        FLOWS, "Action.%s" % _m, prop="C04",
+        requires=["is_obj(self)", "has(self, 'name')", "is_str(self.name)", "has(self, 'uid')", "has(self, 'start_event_arguments')", "is_dict(args)"],
+        ensures=["is_inst(result, 'ActionEvent')", "result.action_uid is self.uid", "is_dict(result.arguments)", "fresh(result.arguments)",
+                 "result.name == concat(self.name, '%s')" % _suffix,
+                 "implies(truthy(self.start_event_arguments), has(result.arguments, 'action_arguments') and "
+                 "        val(result.arguments, 'action_arguments') is self.start_event_arguments)",
+                 "all(implies(k is not 'action_arguments', has(result.arguments, k) and val(result.arguments, k) is val(args, k)) for k in keys(args))",
+                 "unchanged(args)"],
+        raises={}, assigns=[], allocates=True,
+    )
